@@ -52,6 +52,143 @@ func ExecTimed(t *testing.T, sc *Scenario) Result {
 
 func sleepUnits(sc *Scenario, n int) { time.Sleep(time.Duration(n) * sc.unit()) }
 
+// startTwin starts an independent second instance of the timed stage on the same virtual clock (own context, own
+// channels, the simplest environment: input always available, consumer always ready, no faults) and returns the
+// function that waits for it and judges it with the exact oracles of that environment.  It uses actors only
+// (no synctest.Wait), so it can run next to any main scenario.
+func startTwin(sc *Scenario, envStop <-chan struct{}) func() string {
+	if !sc.Twin {
+		return func() string { return "" }
+	}
+	const K = 6
+	start := time.Now()
+	unit := sc.unit()
+	ctx, cancel := context.WithCancel(context.Background())
+	var got []stamped
+	closed := false
+	done := make(chan struct{})
+	var period time.Duration
+	var describe string
+	var judge func() string
+	collect := func(out <-chan int, n int) {
+		for len(got) < n {
+			select {
+			case v, ok := <-out:
+				if !ok {
+					closed = true
+					return
+				}
+				got = append(got, stamped{v, time.Since(start)})
+			case <-envStop:
+				return
+			}
+		}
+	}
+	vals := func() []int {
+		r := make([]int, len(got))
+		for i, g := range got {
+			r[i] = g.v
+		}
+		return r
+	}
+	switch sc.Stage {
+	case "throttle":
+		ops := max(sc.Ops, 1)
+		period = time.Duration(max(sc.Interval, 1)) * unit
+		describe = fmt.Sprintf("twin Throttling(ops=%d, interval=%v) over 7 buffered elements, consumer always ready", ops, period)
+		input := []int{500, 501, 502, 503, 504, 505, 506}
+		in := make(chan int, len(input))
+		for _, x := range input {
+			in <- x
+		}
+		close(in)
+		out := pipe.Throttling(ctx, in, ops, period)
+		go func() {
+			defer close(done)
+			collect(out, len(input)+1)
+		}()
+		judge = func() string {
+			if !equalInts(vals(), input) || !closed {
+				return fmt.Sprintf("%s: delivered %v closed=%v, input %v", describe, vals(), closed, input)
+			}
+			for i, g := range got {
+				lo := time.Duration(i/ops) * period
+				if g.at < lo || g.at > lo+period {
+					return fmt.Sprintf("%s: element %d delivered at %v, allowed [%v, %v]; delivery times %v", describe, i, g.at, lo, lo+period, times(got))
+				}
+			}
+			return ""
+		}
+	default:
+		period = time.Duration(max(sc.Freq, 1)) * unit
+		var out <-chan int
+		var exx <-chan error
+		if sc.Stage == "emit" {
+			describe = fmt.Sprintf("twin Emit(cap 0, freq=%v, f(i)=9000+i), consumer always ready", period)
+			out, exx = pipe.Emit(ctx, 0, period, pipe.Pure(func(i int) int { return 9000 + i }))
+		} else {
+			describe = "twin Unfold(cap 0, seed 9000, +1), consumer always ready"
+			out, exx = pipe.Unfold(ctx, 0, 9000, pipe.Pure(func(x int) int { return x + 1 }))
+		}
+		go func() {
+			defer close(done)
+			collect(out, K)
+			cancel()
+			// after its own cancel both channels must close (otherwise this goroutine stays blocked and the bubble reports it)
+			for range out {
+			}
+			for range exx {
+			}
+			closed = true
+		}()
+		judge = func() string {
+			want := []int{9000, 9001, 9002, 9003, 9004, 9005}
+			if !equalInts(vals(), want) {
+				return fmt.Sprintf("%s: delivered %v, want %v", describe, vals(), want)
+			}
+			if sc.Stage == "emit" {
+				for j := 1; j < len(got); j++ {
+					if d := got[j].at - got[j-1].at; d != period {
+						return fmt.Sprintf("%s: values %d and %d received %v apart; receive times %v", describe, j-1, j, d, times(got))
+					}
+				}
+			}
+			return ""
+		}
+	}
+	return func() string {
+		select {
+		case <-done:
+		default:
+			// not finished yet: give it 40 periods from now (a correct twin needs at most 8)
+			select {
+			case <-done:
+			case <-time.After(40 * period):
+				select {
+				case <-done: // both were ready
+				default:
+					cancel()
+					return fmt.Sprintf("%s: not finished after 40 more periods of virtual time", describe)
+				}
+			}
+		}
+		cancel()
+		return judge()
+	}
+}
+
+func equalInts(a, b []int) bool {
+	if len(a) != len(b) {
+		return false
+	}
+	for i := range a {
+		if a[i] != b[i] {
+			return false
+		}
+	}
+	return true
+}
+
 // ---------------------------------------------------------------------------------------------- C13
 
 func runThrottle(sc *Scenario) (res Result) {
@@ -66,6 +203,7 @@ func runThrottle(sc *Scenario) (res Result) {
 	in := make(chan int, c)
 	out := pipe.Throttling(ctx, in, ops, interval)
 	envStop := make(chan struct{})
+	twin := startTwin(sc, envStop)
 
 	var mu sync.Mutex
 	var got []stamped
@@ -181,6 +319,11 @@ func runThrottle(sc *Scenario) (res Result) {
 	for i, s := range g {
 		vals[i] = s.v
 	}
+	if msg := twin(); msg != "" {
+		finish()
+		res.Msg = msg
+		return
+	}
 	if !isPrefix(vals, input) {
 		finish()
 		res.Msg = fmt.Sprintf("throttling: delivered %v, input is %v (lost, duplicated or reordered)", vals, input)
@@ -269,6 +412,7 @@ func runGenerator(sc *Scenario) (res Result) {
 	} else {
 		out, exx = pipe.Unfold(e.ctx, sc.Caps0(), sc.Seed, liftF(e, sc.step))
 	}
+	twin := startTwin(sc, e.envStop)
 	var mu sync.Mutex
 	var got, gotErr []stamped
 	outClosed, errClosed := false, false
@@ -473,7 +617,11 @@ func runGenerator(sc *Scenario) (res Result) {
 		}
 		return ""
 	}
-	if msg := check(); msg != "" {
+	msg := check()
+	if msg == "" {
+		msg = twin()
+	}
+	if msg != "" {
 		finish()
 		close(e.envStop)
 		res.Msg = msg
